@@ -109,7 +109,7 @@ Viol(ev) ==
      [] ev.e = "XorEqBad" -> {"C05 a parity is neither zero nor a copy of the unit data fragment"}
      [] ev.e = "CreateBox" -> CreateBoxViol(ev)
      [] ev.e = "Fault" -> {"fault: " \o ev.how}
-     [] ev.e = "Create" -> IF ev.rc <= 0 THEN {"create failed in a sweep"} ELSE {}
+     [] ev.e = "Create" -> IF ev.rc <= 0 /\ (~Has(ev, "wnat") \/ ev.wnat = 1) THEN {"create failed in a sweep"} ELSE {}
      [] ev.e = "Enc" -> IF ev.rc # 0 THEN {"encode failed in a sweep"} ELSE {}
      [] OTHER -> {}
 
